@@ -76,9 +76,14 @@ def header_value(rng: random.Random) -> bytes:
 
 
 def body_bytes(rng: random.Random, n: int, style: Optional[str] = None) -> bytes:
-    style = style or rng.choice(['text', 'binary', 'all256', 'crlfy', 'coded'])
+    style = style or rng.choice(['text', 'binary', 'all256', 'crlfy', 'coded', 'coded', 'gzlike'])
     if n == 0:
         return b''
+    if style == 'gzlike':
+        # content that is itself a compressed stream (a .gz / .tgz file): starts with the gzip magic
+        import gzip as _gz
+        z = _gz.compress(coded(b'Z', max(n, 64)), mtime=0)
+        return (z + coded(b'z', n))[:n]
     if style == 'text':
         return (b'The quick brown fox jumps over the lazy dog. ' * (n // 45 + 1))[:n]
     if style == 'all256':
@@ -157,7 +162,11 @@ def _emit_body(rng: random.Random, m: Msg, ext: bool, trailers: bool) -> None:
         if rng.random() < 0.15:
             line = b'0' * rng.randint(1, 3) + line
         if ext and rng.random() < 0.7:
-            line += rng.choice([b';x=1', b';name="quoted; value"', b';flag', b' ; a=b'])
+            if rng.random() < 0.08:
+                # a valid but very long extension: the chunk-size line alone exceeds common buffer and line-length limits
+                line += b';sig=' + b'a' * rng.choice([300, 4090, 4097, 5005, 9000])
+            else:
+                line += rng.choice([b';x=1', b';name="quoted; value"', b';flag', b' ; a=b'])
             m.has_ext = True
         m.zones.append((pos, pos + len(line), 'chunk-size'))
         pos += len(line)
@@ -195,8 +204,13 @@ def extra_headers(rng: random.Random, n: int, reserved: List[bytes]) -> List[Tup
     out: List[Tuple[bytes, bytes]] = []
     pool = [b'Accept', b'User-Agent', b'X-Custom', b'Cookie', b'Referer', b'Accept-Encoding', b'X-Req-Id',
             b'Authorization', b'Cache-Control', b'Pragma', b'X-Forwarded-For', b'If-None-Match']
+    # end-to-end fields whose names merely look like hop-by-hop / framing fields (prefix, suffix or substring of one)
+    lookalikes = [b'Proxy-Client-IP', b'Proxy-Ticket', b'Proxy-Authorization-Info', b'X-Proxy-Authorization', b'Proxy-Connection-Id',
+                  b'Connection-Info', b'Via-Cache', b'X-Via', b'Host-Override', b'X-Host', b'Content-Length-Hint', b'X-Content-Length',
+                  b'Transfer-Encoding-Hint', b'Keep-Alive-Hint', b'Upgrade-Insecure-Requests', b'Proxy', b'Proxy-']
     while len(out) < n:
-        name = rng.choice(pool) if rng.random() < 0.5 else b'X-' + token(rng, 1, 12)
+        r = rng.random()
+        name = rng.choice(pool) if r < 0.4 else rng.choice(lookalikes) if r < 0.6 else b'X-' + token(rng, 1, 12)
         if name.lower() in seen:
             continue
         seen.add(name.lower())
